@@ -18,6 +18,8 @@ def runCase (kind : String) (fields : List String) : List String :=
   | "expand" => Driver.expand fields
   | "prog" => Driver.prog fields
   | "progx" => Driver.progx fields
+  | "evalfile" => Driver.evalfile fields
+  | "imports" => Driver.imports fields
   | "gen-selfcheck" => Driver.genSelfcheck fields
   | "gen-text" => Driver.genText fields
   | "gen-data" => Driver.genData fields
